@@ -199,6 +199,7 @@ type Obligation struct {
 	ClauseGo string
 	vc       *VC
 	st       *State
+	Weak     bool // generated in a function that calls something without a contract (havoc abstraction)
 	Relaxed  bool // candidate-model search: quantified facts dropped (models are validated by replay only)
 }
 
@@ -223,17 +224,17 @@ type aliasOrigin struct {
 }
 
 type State struct {
-	vars    map[types.Object]Term
-	heap    map[string]Term
-	alloc   string
-	facts   []string
-	defers  []deferred
-	ghost   map[string]Term
-	alias   map[types.Object]*aliasOrigin
-	freshSl map[types.Object]bool
-	rets    []Term
-	dead    bool
-	cells   map[types.Object]Term
+	vars     map[types.Object]Term
+	heap     map[string]Term
+	alloc    string
+	facts    []string
+	defers   []deferred
+	ghost    map[string]Term
+	alias    map[types.Object]*aliasOrigin
+	freshSl  map[types.Object]bool
+	rets     []Term
+	dead     bool
+	cells    map[types.Object]Term
 	havocTok string // identifies the last frame-less call this state went through
 }
 
@@ -318,8 +319,10 @@ type VC struct {
 	pure        int
 	quiet       int
 	usedAnchors map[string]bool
-	lazyHeaps map[string]Term
-	bvN       int
+	lazyHeaps   map[string]Term
+	bvN         int
+	havocKnown  map[string]map[string]bool
+	abstracted  []string // callees without contract (abstracted by havoc)
 }
 
 func (vc *VC) declare(name, sort string) {
